@@ -729,45 +729,45 @@ def evaluable(t):
 
 
 def property_oracle(impl_dir, seed, t):
-    """The property's own reading on one source tree: println(<minimal text>) and println(<fully
-    parenthesised text>) must print the same value (operand values by brute force in the model), and
-    the real parser must build the same AST for both texts.  -> (violated?, description, payload)"""
+    """The property's own reading on one source tree: println of the text as given (with its redundant
+    parentheses), of the minimal text and of the fully parenthesised text must print the same value
+    (operand values by brute force in the model), and the real parser must build the same AST for the three
+    texts.  -> (violated?, description, payload)"""
     t0 = strip(t)
-    mt = model_tree([t0, model_full([t0])[0]])
-    tmin, tfull = mt[0]["text"], mt[1]["text"]
-    d = impl_dumps(impl_dir, [tmin, tfull], [False, False])
-    payload = {"minimal": tmin, "full": tfull, "impl_ast_minimal": d[0], "impl_ast_full": d[1]}
-    if evaluable(t0) and mt[0]["safe"] and mt[1]["safe"]:
+    mt = model_tree([t, t0, model_full([t0])[0]])
+    forms = [("given", mt[0]["text"]), ("minimal", mt[1]["text"]), ("full", mt[2]["text"])]
+    if forms[0][1] == forms[1][1]:
+        forms = forms[1:]
+    texts = [x[1] for x in forms]
+    d = impl_dumps(impl_dir, texts, [False] * len(texts))
+    payload = {"texts": dict(forms), "impl_ast": dict(zip([x[0] for x in forms], d))}
+    if evaluable(t0) and all(m["safe"] for m in mt):
         rng = rng_for(seed, "c02-oracle", sx(t0))
-        cands = []
-        for _ in range(60):
-            vs = [rng.choice(VALS) for _ in VARS]
-            cands.append(vs)
+        cands = [[rng.choice(VALS) for _ in VARS] for _ in range(60)]
         ev = model_eval([(vs, t0) for vs in cands])
-        cases = [(vs, [tmin, tfull]) for vs, v in zip(cands, ev) if v is not None][:30]
+        cases = [(vs, texts) for vs, v in zip(cands, ev) if v is not None][:30]
         exp = [v for v in ev if v is not None][:30]
         outs = run_eval_cases(impl_dir, cases)
         for (vs, _), o, want in zip(cases[:3], outs[:3], exp[:3]):
             if not isinstance(o, list):
-                # the two-line program failed: run each form alone
-                r1 = common.run_cb(impl_dir, eval_program([(vs, [tmin])]))
-                r2 = common.run_cb(impl_dir, eval_program([(vs, [tfull])]))
-                s1 = (r1[0], r1[1].strip()); s2 = (r2[0], r2[1].strip())
-                if s1 != s2:
-                    payload.update({"values": dict(zip(VARS, vs)), "minimal_alone": {"rc": r1[0], "stdout": r1[1], "stderr": r1[2][:300]},
-                                    "full_alone": {"rc": r2[0], "stdout": r2[1], "stderr": r2[2][:300]}, "value_of_the_tree": want,
-                                    "program": eval_program([(vs, [tmin, tfull])])})
-                    return True, "println(%s) gives exit %s output %r but println(%s) gives exit %s output %r with %s" % (
-                        tmin, s1[0], s1[1], tfull, s2[0], s2[1], dict(zip(VARS, vs))), payload
+                # the program failed as a whole: run each form alone
+                rs = [common.run_cb(impl_dir, eval_program([(vs, [tx])])) for tx in texts]
+                ss = [(r[0], r[1].strip()) for r in rs]
+                if len(set(ss)) > 1:
+                    payload.update({"values": dict(zip(VARS, vs)), "value_of_the_tree": want,
+                                    "alone": {n: {"rc": r[0], "stdout": r[1], "stderr": r[2][:300]} for (n, _), r in zip(forms, rs)},
+                                    "program": eval_program([(vs, texts)])})
+                    return True, "; ".join("println(%s) gives exit %s output %r" % (tx, x[0], x[1]) for tx, x in zip(texts, ss)) + \
+                        " with %s" % dict(zip(VARS, vs)), payload
         for (vs, _), o, want in zip(cases, outs, exp):
-            if isinstance(o, list) and o[0] != o[1]:
-                payload.update({"values": dict(zip(VARS, vs)), "printed_minimal": o[0], "printed_full": o[1],
-                                "value_of_the_tree": want, "program": eval_program([(vs, [tmin, tfull])])})
-                return True, "println(%s) prints %s but println(%s) prints %s with %s" % (
-                    tmin, o[0], tfull, o[1], dict(zip(VARS, vs))), payload
-    if d[0] != d[1]:
-        return True, "the parser groups `%s` differently from its fully parenthesised form `%s`" % (tmin, tfull), payload
-    return False, "println(min) = println(full) and equal ASTs on this input", payload
+            if isinstance(o, list) and len(set(o)) > 1:
+                payload.update({"values": dict(zip(VARS, vs)), "printed": dict(zip([x[0] for x in forms], o)),
+                                "value_of_the_tree": want, "program": eval_program([(vs, texts)])})
+                return True, "; ".join("println(%s) prints %s" % (tx, x) for tx, x in zip(texts, o)) + \
+                    " with %s" % dict(zip(VARS, vs)), payload
+    if len(set(d)) > 1:
+        return True, "the parser builds different ASTs for " + " / ".join("`%s`" % tx for tx in texts), payload
+    return False, "println and AST agree for the given, minimal and fully parenthesised text on this input", payload
 
 
 # ------------------------------------------------------------------ known findings
@@ -1220,17 +1220,19 @@ def replay(path):
     if "program" in c:
         rc, o, e = common.run_cb(impl, c["program"])
         print("program:\n" + c["program"]); print("rc", rc); print(o); print(e[:500])
-        ls = o.split("\n")
-        return 0 if rc == 0 and len(ls) >= 2 and ls[0] == ls[1] else 1
-    text = c.get("minimal") or c.get("text") or (c.get("shrunk") or {}).get("text")
-    if text:
-        m = model_parse([text])[0]
-        i = impl_dumps(impl, [text], [False])[0]
-        print("text :", text); print("model:", m); print("impl :", i)
-        if c.get("full"):
-            j = impl_dumps(impl, [c["full"]], [False])[0]
-            print("full :", c["full"]); print("impl :", j)
-            return 0 if model_verdict(m) == i and i == j else 1
-        return 0 if model_verdict(m) == i else 1
+        ls = o.split("\n")[:-1] if o.endswith("\n") else o.split("\n")
+        if "expected" in c:
+            return 0 if rc == 0 and ls == c["expected"] else 1
+        return 0 if rc == 0 and len(ls) >= 2 and len(set(ls)) == 1 else 1
+    texts = list((c.get("texts") or {}).values()) or [c.get("text") or (c.get("shrunk") or {}).get("text")]
+    texts = [t for t in texts if t]
+    if texts:
+        ms = model_parse(texts)
+        ims = impl_dumps(impl, texts, [False] * len(texts))
+        ok = True
+        for t, m, i in zip(texts, ms, ims):
+            print("text :", t); print("model:", m); print("impl :", i)
+            ok = ok and model_verdict(m) == i
+        return 0 if ok and len(set(ims)) == 1 else 1
     print(json.dumps(c, indent=1))
     return 1
